@@ -1,6 +1,7 @@
 package main
 
 import (
+	"go/types"
 	"go/token"
 	"sort"
 	"fmt"
@@ -497,6 +498,14 @@ func runC06(e *Engine, r *Report, tier string) {
 								ok = true
 							}
 						}
+						if ok {
+							// same key on both sides: if the guard looks the record's nonce up in a set built from the parked
+							// claims, the set must be keyed by the claim field the executor uses to find the record it settles
+							if why := e.parkedSetKeyMismatch(fn, rel, cc, fam); why != "" {
+								r.Fail("R7", ck, e.InstrPos(rel), why)
+								continue
+							}
+						}
 						r.Check(ok, "R7", ck, e.InstrPos(rel), "the release is guarded by a lookup among the parked claims (0x54): a record whose result was observed is left to that result",
 							"records of family 0x"+fam+" are settled only when their parked result is executed ("+via+"), but the timeout sweep releases them without looking at the parked claims: a call already executed on the external chain is refunded as soon as a later event passes its timeout")
 					}
@@ -612,4 +621,109 @@ func (e *Engine) dependsOnFamilyRead(fn *ssa.Function, v ssa.Value, mod, fam str
 		return e.dependsOnFamilyRead(fn, x.X, mod, fam, depth+1, seen)
 	}
 	return false
+}
+
+// parkedSetKeyMismatch: when the release guard is a lookup in a map built from the parked claims, every key inserted
+// into that map must be the claim field by which the executor of the parked claim fetches the record (for a bridge-call
+// result: the call nonce it refers to, not its own event nonce). "" if consistent or if no such map is involved.
+func (e *Engine) parkedSetKeyMismatch(fn *ssa.Function, rel ssa.CallInstruction, mod, fam string) string {
+	// executor side: field of the claim used as key of the get(fam) in the settling handler
+	execField, claimType := "", ""
+	for _, f := range e.Funcs {
+		if f.Parent() != nil || isAuxPkg(fnPkgPath(f)) || !e.HasTransEffect(f, mod, fam, "delete") {
+			continue
+		}
+		for _, p := range f.Params {
+			tn := namedTypeName(p.Type())
+			if !strings.HasSuffix(tn, "Claim") {
+				continue
+			}
+			allCalls(f, func(c ssa.CallInstruction) {
+				ok := e.callDirectOp(c, mod, fam, "get")
+				if !ok {
+					for _, g := range e.calleesOf(c) {
+						if e.HasTransEffect(g, mod, fam, "get") && !e.HasTransEffect(g, mod, fam, "delete") {
+							ok = true
+						}
+					}
+				}
+				if !ok {
+					return
+				}
+				for _, a := range nonCtxArgs(c) {
+					if n, st, ok := fieldNameOfLoad(a); ok && namedTypeName(st) == tn {
+						execField, claimType = n, tn
+					}
+				}
+			})
+		}
+	}
+	if execField == "" {
+		return ""
+	}
+	// sweep side: the map of the guarding lookup
+	var mapVal ssa.Value
+	for _, g := range GuardsOf(rel) {
+		var find func(v ssa.Value, d int)
+		find = func(v ssa.Value, d int) {
+			if v == nil || d > 6 || mapVal != nil {
+				return
+			}
+			switch x := v.(type) {
+			case *ssa.Lookup:
+				if _, ok := x.X.Type().Underlying().(*types.Map); ok {
+					mapVal = x.X
+				}
+			case *ssa.Extract:
+				find(x.Tuple, d+1)
+			case *ssa.UnOp:
+				find(x.X, d+1)
+			case *ssa.BinOp:
+				find(x.X, d+1)
+				find(x.Y, d+1)
+			}
+		}
+		find(g.Cond, 0)
+	}
+	if mapVal == nil {
+		return ""
+	}
+	mt := mapVal.Type().String()
+	// functions that fill a map of that type from the parked claims
+	bad := ""
+	seenUpd := false
+	for _, f := range e.Funcs {
+		if isAuxPkg(fnPkgPath(f)) || !e.HasTransEffect(rootFn(f), mod, "54", "get,has,iter") {
+			continue
+		}
+		allInstrs(f, func(i ssa.Instruction) {
+			mu, ok := i.(*ssa.MapUpdate)
+			if !ok || mu.Map.Type().String() != mt {
+				return
+			}
+			seenUpd = true
+			okKey := false
+			e.Slice(mu.Key, SliceOpts{MaxDepth: 8}, func(x ssa.Value) Verdict {
+				if n, st, ok := fieldName(x); ok && n == execField && namedTypeName(st) == claimType {
+					okKey = true
+					return Accept
+				}
+				return Continue
+			})
+			if !okKey {
+				bad = "the set of parked results consulted by the timeout sweep is filled with a key that is not " + shortName(claimType) + "." + execField + " (the field by which the executor finds the record it settles) while the sweep looks records up by their own nonce: the guard never matches and an executed call is still refunded"
+			}
+		})
+	}
+	if !seenUpd {
+		return ""
+	}
+	return bad
+}
+
+func shortName(tn string) string {
+	if i := strings.LastIndex(tn, "."); i >= 0 {
+		return tn[i+1:]
+	}
+	return tn
 }
